@@ -19,6 +19,7 @@
 From Coq Require Import List QArith Lia.
 Import ListNotations.
 From QSX Require Import IO.Num IO.NumSound IO.Bounds IO.Ranges IO.Equiv IO.Lex IO.LpWrite IO.LpRead IO.LpTok IO.LpExpr IO.LpRows IO.LpBounds IO.LpFinish IO.LpRoundtrip IO.LpTotal IO.LpBytes.
+From QSX Require Import IO.MpsWrite IO.MpsRead IO.MpsTotal IO.MpsTok IO.MpsEquiv IO.MpsRoundtrip IO.MpsWf.
 Local Open Scope Q_scope.
 
 Theorem C10_read_denotes :
@@ -115,3 +116,41 @@ Theorem C10_lp_reader_bytes :
   forall strict M ls, Forall line_ok ls -> read_lp_res strict M (split_lines (file_bytes ls)) = read_lp_res strict M ls.
 Proof. exact read_lp_bytes. Qed.
 Print Assumptions C10_lp_reader_bytes.
+
+(* ---- the MPS reader model (IO/MpsRead.v; tied to mpq_QSget_prob (.., "MPS") on rendered, token-mutated and library-written
+   files on every run) ---------------------------------------------------------------------------------------------------- *)
+
+(* total: the fuel of its loops (pairs of a record: bytes of the line; lines of the file) is never exhausted *)
+Theorem C10_mps_reader_total : forall strict M ls, read_mps_res strict M ls <> MFuel.
+Proof. exact mps_reader_total. Qed.
+Print Assumptions C10_mps_reader_total.
+
+(* reading the bytes of a file is reading its lines (every line shorter than the line buffer) *)
+Theorem C10_mps_reader_bytes : forall strict M ls, Forall line_ok ls ->
+  read_mps_res strict M (split_lines (file_bytes ls)) = read_mps_res strict M ls.
+Proof. exact read_mps_bytes. Qed.
+Print Assumptions C10_mps_reader_bytes.
+
+(* fields: free format, blanks of any kind and number between the fields *)
+Theorem C10_mps_fields_any_blanks :
+  forall t b w rest, t_cur t = b ++ w ++ rest -> all_blank b -> word w -> eow rest -> (no_dollar w \/ (t_fnum t < 2)%nat) ->
+  mnext_field t = (mk_tk (tl rest) (t_line t) (t_key t) w (S (t_fnum t)), true).
+Proof. exact mnext_field_word. Qed.
+Print Assumptions C10_mps_fields_any_blanks.
+
+(* a bound value spelled by print_num is read as that rational by ILLmps_next_bound (it is not taken for INF / INFINITY) *)
+Theorem C10_mps_bound_value :
+  forall M t b v, t_cur t = b ++ print_num v -> all_blank b ->
+  next_bound true M t = DVal (mk_tk [] (t_line t) (t_key t) (t_fld t) (S (t_fnum t))) (rr v).
+Proof. exact next_bound_num. Qed.
+Print Assumptions C10_mps_bound_value.
+
+(* "partial" with respect to C10's target read_mps (render P layout) = Some P: proved for the writer's layout; the other
+   lexical freedoms of MPS files (several pairs per record, blank set names, negative RHS on the objective, RANGES on
+   L / G / E rows of either sign, BV / LI / UI / MI / PL records, '$' and '*' comments, OBJSENSE spellings) are covered by the
+   correspondence reader model = library on independently rendered files, not by a theorem *)
+Theorem C10_mps_written_file_partial :
+  forall M, 0 < M -> forall P, wf_mps M P ->
+  exists P', read_mps true M (write_mps M P) = Some P' /\ equiv_by_name (mlp_to_nlp P) (mlp_to_nlp P') = true.
+Proof. exact mps_roundtrip. Qed.
+Print Assumptions C10_mps_written_file_partial.
